@@ -73,65 +73,214 @@ def check_index_formula(chk, u):
         raise AnalysisBroken("no constructor sets _number_of_cells[3]")
 
 
-def inner_nests(fn, callee):
-    """Triple loop nests of an internal sweep: (axis arg, bounds per loop var, left/right index exprs, call)."""
-    out = []
-    for lp in fn["body"]["s"]:
-        if lp.get("k") != "For":
-            continue
-        vars_ = []
-        cur = lp
-        while cur is not None and cur.get("k") == "For":
-            d = cur["init"]["d"][0]
-            c = C.strip_casts(cur["c"])
-            vars_.append((d, c))
-            body = cur["body"]
-            inner = [s for s in (body["s"] if body.get("k") == "Block" else [body]) if s.get("k") == "For"]
-            rest = body
-            cur = inner[0] if len(inner) == 1 else None
-        calls = [x for x in C.walk_stmt(rest) if C.is_call(x, name=callee)]
-        if len(vars_) == 3 and len(calls) == 1:
-            out.append((vars_, rest, calls[0], lp))
-    return out
+class _NestExec:
+    """Symbolic executor for the internal sweep functions: constant loops (over the axes) are executed iteration by
+    iteration, loops with a symbolic bound bind their variable to a symbol with a recorded range and execute the body
+    once; every call to the face routine is recorded with its evaluated arguments and the loop ranges around it."""
+
+    def __init__(self, fn, callee):
+        self.fn = fn
+        self.callee = callee
+        self.records = []
+        self.conv = Converter(atoms=member_atoms, integer=True)
+        self.nsym = 0
+
+    def sym_env(self, env):
+        e = Env()
+        for k, v in env.items():
+            if isinstance(v, (sp.Basic, int)) and not isinstance(v, bool):
+                e.vals[("l", k)] = sp.Integer(v) if isinstance(v, int) else v
+        return e
+
+    def subst(self, e, env):
+        """Copy of e with concrete integer locals replaced by literals and elements of local arrays by their values."""
+        if isinstance(e, dict):
+            if e.get("k") == "Ref" and "id" in e and isinstance(env.get(e["id"]), (int, sp.Integer)) and \
+                    not isinstance(env.get(e["id"]), bool):
+                return {"k": "Int", "v": int(env[e["id"]]), "l": e.get("l")}
+            if e.get("k") == "Idx":
+                b = C.strip_casts(e["a"])
+                if b.get("k") == "Ref" and isinstance(env.get(b.get("id")), list):
+                    i = self.value(e["i"], env)
+                    if isinstance(i, (int, sp.Integer)) and 0 <= int(i) < len(env[b["id"]]):
+                        v = env[b["id"]][int(i)]
+                        return {"k": "SymVal", "val": v, "l": e.get("l")}
+            return {k2: self.subst(x, env) for k2, x in e.items()}
+        if isinstance(e, list):
+            return [self.subst(x, env) for x in e]
+        return e
+
+    def value(self, e, env):
+        e0 = C.strip_casts(e)
+        ci = C.const_int(e0)
+        if ci is not None and e0.get("k") != "Ref":
+            return ci
+        if e0.get("k") == "Ref" and "id" in e0 and e0["id"] in env and not isinstance(env[e0["id"]], list):
+            return env[e0["id"]]
+        if e0.get("k") == "Idx":
+            b = C.strip_casts(e0["a"])
+            if b.get("k") == "Ref" and isinstance(env.get(b.get("id")), list):
+                i = self.value(e0["i"], env)
+                if isinstance(i, (int, sp.Integer)) and 0 <= int(i) < len(env[b["id"]]):
+                    return env[b["id"]][int(i)]
+        sub = self.subst(e0, env)
+        old_atoms = self.conv.atoms
+
+        def atoms(key, x):
+            xx = C.strip_casts(x)
+            if xx.get("k") == "SymVal":
+                return xx["val"]
+            return old_atoms(key, x) if old_atoms else None
+        self.conv.atoms = atoms
+        old_conv = self.conv.conv
+
+        def conv2(x, en):
+            xx = C.strip_casts(x)
+            if xx is not None and xx.get("k") == "SymVal":
+                v = xx["val"]
+                return sp.Integer(v) if isinstance(v, int) else v
+            return old_conv(x, en)
+        self.conv.conv = conv2
+        try:
+            r = self.conv.conv(sub, self.sym_env(env))
+        finally:
+            self.conv.conv = old_conv
+            self.conv.atoms = old_atoms
+        if isinstance(r, sp.Integer):
+            return int(r)
+        return r
+
+    def truth(self, e, env):
+        e0 = C.strip_casts(e)
+        if e0.get("k") == "Bin" and e0["op"] in ("<", "<=", ">", ">=", "==", "!="):
+            a2, b2 = self.value(e0["a"], env), self.value(e0["b"], env)
+            if isinstance(a2, int) and isinstance(b2, int):
+                return {"<": a2 < b2, "<=": a2 <= b2, ">": a2 > b2, ">=": a2 >= b2, "==": a2 == b2, "!=": a2 != b2}[e0["op"]]
+        return None
+
+    def run(self, st, env, ranges):
+        k = st.get("k")
+        if k == "Block":
+            if st.get("mac"):
+                return
+            inner = dict(env)
+            for c2 in st.get("s", []):
+                self.run(c2, inner, ranges)
+            for key in env:
+                env[key] = inner[key]
+        elif k == "Decl":
+            for d in st["d"]:
+                init = C.strip_casts(d["init"]) if d.get("init") is not None else None
+                if init is not None and init.get("k") == "InitList":
+                    env[d["id"]] = [self.value(x, env) for x in init["a"]]
+                elif init is not None:
+                    try:
+                        env[d["id"]] = self.value(init, env)
+                    except AnalysisBroken:
+                        env[d["id"]] = None
+        elif k == "For":
+            inner = dict(env)
+            if st.get("init") is not None:
+                self.run(st["init"], inner, ranges)
+            d0 = st["init"]["d"][0] if st.get("init") and st["init"].get("k") == "Decl" else None
+            c = C.strip_casts(st.get("c")) if st.get("c") is not None else None
+            t = self.truth(c, inner) if c is not None else None
+            if t is not None:
+                it = 0
+                while self.truth(c, inner):
+                    self.run(st["body"], inner, ranges)
+                    if st.get("inc") is not None:
+                        self.run(st["inc"], inner, ranges)
+                    it += 1
+                    if it > 16:
+                        raise AnalysisBroken("%s: constant loop longer than 16 iterations" % self.fn["full"])
+            else:
+                if d0 is None or c is None or c.get("k") != "Bin" or c["op"] != "<" or \
+                        C.strip_casts(c["a"]).get("id") != d0["id"]:
+                    raise AnalysisBroken("%s: loop at line %s is not `for (v = a; v < b; ++v)`" % (self.fn["full"], st.get("l")))
+                inc = C.strip_casts(st.get("inc")) if st.get("inc") is not None else None
+                if not (inc is not None and inc.get("k") == "Un" and inc["op"] in ("pre++", "post++") and
+                        C.strip_casts(inc["x"]).get("id") == d0["id"]):
+                    raise AnalysisBroken("%s: loop at line %s does not step by one" % (self.fn["full"], st.get("l")))
+                start = inner.get(d0["id"])
+                ub = self.value(c["b"], inner)
+                self.nsym += 1
+                sv = S("i%d" % self.nsym, integer=True)
+                inner[d0["id"]] = sv
+                self.run(st["body"], inner, ranges + [(sv, start, ub, st)])
+            for key in env:
+                env[key] = inner[key]
+        elif k == "If":
+            t = self.truth(st["c"], env)
+            if t is None:
+                raise AnalysisBroken("%s: condition at line %s is not decided" % (self.fn["full"], st.get("l")))
+            if t:
+                self.run(st["th"], env, ranges)
+            elif st.get("el") is not None:
+                self.run(st["el"], env, ranges)
+        elif k == "Bin" and st["op"] in ("=", "+=", "-="):
+            tgt = C.strip_casts(st["a"])
+            val = self.value(st["b"], env)
+            if tgt.get("k") == "Ref" and "id" in tgt:
+                cur = env.get(tgt["id"])
+                env[tgt["id"]] = val if st["op"] == "=" else (cur + val if st["op"] == "+=" else cur - val)
+            elif tgt.get("k") == "Idx" and C.strip_casts(tgt["a"]).get("k") == "Ref" and \
+                    isinstance(env.get(C.strip_casts(tgt["a"]).get("id")), list):
+                i = self.value(tgt["i"], env)
+                arr = list(env[C.strip_casts(tgt["a"])["id"]])
+                if not isinstance(i, int):
+                    raise AnalysisBroken("%s: array element with a symbolic index is assigned (line %s)" %
+                                         (self.fn["full"], st.get("l")))
+                arr[i] = val if st["op"] == "=" else (arr[i] + val if st["op"] == "+=" else arr[i] - val)
+                env[C.strip_casts(tgt["a"])["id"]] = arr
+        elif k == "Un" and st["op"] in ("pre++", "post++", "pre--", "post--"):
+            tgt = C.strip_casts(st["x"])
+            if tgt.get("k") == "Ref" and isinstance(env.get(tgt.get("id")), int):
+                env[tgt["id"]] += 1 if "++" in st["op"] else -1
+        elif k == "Call" and C.is_call(st, name=self.callee):
+            args = st["a"]
+            rec = {"call": st, "axis": self.value(args[0], env), "ranges": list(ranges), "env": dict(env)}
+
+            def idx_of(a):
+                a0 = C.strip_casts(a)
+                if a0.get("k") == "Idx":
+                    return self.value(a0["i"], env)
+                return None
+            rec["left"], rec["right"] = idx_of(args[1]), idx_of(args[2])
+            geo = []
+            for x in args[3:]:
+                for y in C.walk(x):
+                    yy = C.strip_casts(y)
+                    if yy.get("k") == "Idx" and C.member_name(yy["a"]) in ("_cell_size", "_inv_cell_size", "_cell_areas"):
+                        geo.append(self.value(yy["i"], env))
+                    elif yy.get("k") == "Call" and yy.get("op") == "[]" and yy.get("obj") is not None and yy["a"] and \
+                            C.member_name(yy["obj"]) in ("_cell_size", "_inv_cell_size", "_cell_areas"):
+                        geo.append(self.value(yy["a"][0], env))
+            rec["geo"] = geo
+            self.records.append(rec)
+        elif k in ("Null",):
+            pass
+        elif k == "Call" or k in ("Return",):
+            pass
 
 
 def check_inner(chk, u, name, callee, spacing_member):
     fn = u.func("HydroDensitySubGrid::" + name)
     chk.analysed(function=fn["full"])
-    nests = inner_nests(fn, callee)
+    ex = _NestExec(fn, callee)
+    ex.run(fn["body"], {}, [])
     seen_axes = {}
     n = 0
-    for vars_, body, call, lp in nests:
-        conv = Converter(atoms=member_atoms, integer=True)
-        env = Env()
-        syms = []
-        for i, (d, c) in enumerate(vars_):
-            sv = S("i%d" % i, integer=True)
-            env.vals[("l", d["id"])] = sv
-            syms.append(sv)
-        for s in C.walk_stmt(body):
-            if s.get("k") == "Decl":
-                for d in s["d"]:
-                    if d.get("init") is not None:
-                        try:
-                            env.vals[("l", d["id"])] = conv.conv(d["init"], env)
-                        except AnalysisBroken:
-                            pass
-        axis = C.const_int(call["a"][0])
-        # which loop variable is which coordinate: coefficient of the index
-        def arg_index(e):
-            e = C.strip_casts(e)
-            if e.get("k") == "Idx":
-                return conv.conv(e["i"], env)
-            return None
-        left, right = arg_index(call["a"][1]), arg_index(call["a"][2])
+    for rec in ex.records:
+        axis, left, right, call = rec["axis"], rec["left"], rec["right"], rec["call"]
         inst = "%s axis %s" % (name, axis)
-        loc = where(lp, fn)
-        if left is None or right is None or axis not in (0, 1, 2):
-            chk.fail("S1", inst, loc, "cannot read the two cell operands of %s" % callee, function=fn["full"],
-                     construct=inst)
+        loc = where(rec["ranges"][0][3], fn) if rec["ranges"] else where(call, fn)
+        if left is None or right is None or axis not in (0, 1, 2) or len(rec["ranges"]) != 3:
+            chk.fail("S1", inst, loc, "cannot read the two cell operands of %s inside a triple loop nest" % callee,
+                     function=fn["full"], construct=inst)
             continue
         seen_axes[axis] = seen_axes.get(axis, 0) + 1
+        syms = [r[0] for r in rec["ranges"]]
         coord = {}
         for sv in syms:
             co = sp.expand(left).coeff(sv, 1)
@@ -149,20 +298,16 @@ def check_inner(chk, u, name, callee, spacing_member):
                     loc, "right - left = %s, expected the stride %s of axis %d" % (sp.expand(right - left), STRIDE[axis], axis),
                     function=fn["full"], construct=inst + " right")
         for a in range(3):
-            d, c = [v for v in vars_ if env.vals[("l", v[0]["id"])] == coord[a]][0]
-            start = C.const_int(d.get("init"))
-            ub = conv.conv(c["b"], env) if c.get("k") == "Bin" and c["op"] == "<" else None
+            sv, start, ub, lpst = [r for r in rec["ranges"] if r[0] == coord[a]][0]
             want = N[a] - 1 if a == axis else N[a]
             n += 1
             chk.require(start == 0 and ub is not None and sp.expand(ub - want) == 0, "S1",
-                        "%s: coordinate %d runs over [0, %s)" % (inst, a, want), where(c, fn),
+                        "%s: coordinate %d runs over [0, %s)" % (inst, a, want), where(lpst, fn),
                         "coordinate %d runs from %s to %s" % (a, start, ub), function=fn["full"],
                         construct=inst + " range %d" % a)
-        # axis-specific spacing
-        subs = [i for x in call["a"][3:] for _, i in axis_subscripts(x, {"_cell_size", "_inv_cell_size", "_cell_areas"})]
         n += 1
-        chk.require(bool(subs) and set(subs) == {axis}, "S1", "%s: spacing / area of axis %d" % (inst, axis), loc,
-                    "geometric factors of axes %s are passed" % sorted(set(subs)), function=fn["full"],
+        chk.require(bool(rec["geo"]) and set(rec["geo"]) == {axis}, "S1", "%s: spacing / area of axis %d" % (inst, axis), loc,
+                    "geometric factors of axes %s are passed" % sorted(set(map(str, rec["geo"]))), function=fn["full"],
                     construct=inst + " spacing")
     n += 1
     chk.require(seen_axes == {0: 1, 1: 1, 2: 1}, "S1", "%s sweeps every axis exactly once" % name, where(fn),
